@@ -197,15 +197,6 @@ def oCombineLatest (f : Fn2) (src : Obsv) (others : List Obsv) : Obsv :=
       | a :: rest => rest.foldl f.app a
       | [] => .unit)
 
-def oSequenceEqual (src : Obsv) (others : List Obsv) : Obsv :=
-  fwdOp (oZip src others)
-    (fun sc serial x =>
-      let l := x.toList
-      if l.all (fun i => i == l.headD .unit) then .done
-      else sc.abortObserve serial ;; sc.sinkNext (.bool false) ;; sc.sinkComplete serial)
-    (fun sc _ e => sc.sinkError e)
-    (fun sc serial => sc.sinkNext (.bool true) ;; sc.sinkComplete serial)
-
 /-- amb: `is_win(serial)` claims the winner cell; losers abort themselves -/
 def ambIsWin (w : Nat) (serial : Nat) (k : Bool → Prog) : Prog :=
   .cellRead w false fun cur =>
@@ -240,6 +231,20 @@ def oConcat (src : Obsv) (others : List Obsv) : Obsv := fun s =>
   sctlNew s fun sc => .cellNew (.int 0) fun q =>
   sc.newObserver (fun _ x => sc.sinkNext x) (fun _ e => sc.sinkError e)
     (fun _ => concatNext sc q others 100000) fun ob => src.sub ob
+
+/-- `with_end` (src/operators/sequence_equal.rs): `o.map(|x| Some(x)).concat(&[observables::just(None)])` -/
+def oWithEnd (o : Obsv) : Obsv := oConcat (stdOp kSome o) [oJust (Data.optEnc none)]
+
+/-- sequence_equal.rs: zip over the sequences extended by their end marker; the first tuple with unequal
+    components ⇒ abort, `false`, complete; completion of the zip ⇒ `true`, complete -/
+def oSequenceEqual (src : Obsv) (others : List Obsv) : Obsv :=
+  fwdOp (oZip (oWithEnd src) (others.map oWithEnd))
+    (fun sc serial x =>
+      let l := x.toList
+      if l.all (fun i => i == l.headD .unit) then .done
+      else sc.abortObserve serial ;; sc.sinkNext (.bool false) ;; sc.sinkComplete serial)
+    (fun sc _ e => sc.sinkError e)
+    (fun sc serial => sc.sinkNext (.bool true) ;; sc.sinkComplete serial)
 
 def oTakeUntil (src trigger : Obsv) : Obsv := fun s =>
   sctlNew s fun sc =>
